@@ -184,3 +184,28 @@ def closed_stop(r):
         return not others
     catches = h.type is None or any(norm(e) in ("AttributeError", "Exception", "BaseException") for e in (h.type.elts if isinstance(h.type, ast.Tuple) else [h.type]))
     return catches and all(h.name and x in (f"isinstance({h.name}, AttributeError)", f"type({h.name}) is AttributeError") for x in others)
+
+
+
+def animate_facts(ck, m):
+    """ImageIterator._animate with its locals renamed to the roles the rules are written with: `sent` (what `yield` returns, i.e. a
+    requested seek), `n` (the frame number: the name stored into `image._seek_position`), `frame` (what is yielded)."""
+    import ast
+    from tiv.astutil import body_walk, norm
+    from tiv.roles import rename_locals
+    an = m.get("image/common.py", "ImageIterator._animate")
+    roles = {}
+    for n_ in body_walk(an):
+        if isinstance(n_, ast.Assign) and len(n_.targets) == 1 and isinstance(n_.targets[0], ast.Name) and isinstance(n_.value, ast.Yield):
+            roles.setdefault(n_.targets[0].id, "sent")
+            if isinstance(n_.value.value, ast.Name):
+                roles.setdefault(n_.value.value.id, "frame")
+        if isinstance(n_, ast.Assign) and any(norm(t_) == "image._seek_position" for t_ in n_.targets):
+            if isinstance(n_.value, ast.Name):
+                roles.setdefault(n_.value.id, "n")
+            for t_ in n_.targets:
+                if isinstance(t_, ast.Name):
+                    roles.setdefault(t_.id, "n")
+    applied = rename_locals(an, roles)
+    ck.extra.setdefault("roles", {})["ImageIterator._animate"] = applied
+    return an
